@@ -190,7 +190,7 @@ impl FromStr for Pinned {
 
         // Check for "registry+" at the start.
         let prefix_plus = format!("{}+", Self::PREFIX);
-        if s.find(&prefix_plus).is_some_and(|loc| loc != 0) {
+        if s.find(&prefix_plus) != Some(0) {
             return Err(PinnedParseError::Prefix);
         }
 
@@ -202,7 +202,9 @@ impl FromStr for Pinned {
             .next()
             .ok_or(PinnedParseError::PackageName)?;
 
-        let without_package_name = &without_prefix[pkg_name.len() + "?".len()..];
+        let without_package_name = without_prefix
+            .get(pkg_name.len() + "?".len()..)
+            .ok_or(PinnedParseError::PackageVersion)?;
         let mut s_iter = without_package_name.split('#');
 
         // Parse the package version
